@@ -24,3 +24,28 @@ PROPS["C18"] = dict(
                  "integral floats are outside the stated domain (2.0 prints as 2)"],
     design_ref="DESIGN.md section 5 C18",
 )
+
+EXEC_ASSUME = ["reference executor in harness/hx/refexec.go implements GraphQL selection semantics as restated by the property",
+               "globals Sort=true, Relaxed=false, MaxResolveDepth=100 (defaults) are set at the start of every case",
+               "reflection strategy for generated schemas uses reflect.StructOf types (fields only; methods come from the fixed universe of C02/C08)"]
+
+PROPS["C01"] = dict(
+    pkg="exec", test="TestC01", engine="exec",
+    quick=dict(checks=6000, shards=3), thorough=dict(checks=480000, shards=16),
+    nt_floor=dict(quick=1500, thorough=100000),
+    must_classes=["strategy=R", "strategy=A+any", "strategy=X", "alias", "inline-fragment", "named-fragment", "list-of-list",
+                  "null-element", "empty-list", "cyclic-or-shared-revisit", "multi-op", "op-unknown", "op-ambiguous", "merged-key",
+                  "abstract-hop", "fragment-cond-differs-and-applies", "args", "variables"],
+    level="exploration",
+    technique="model-based differential testing: rapid-generated (schema, data graph, document, variables) vs an independent reference executor",
+    rule="rapid draws a well-formed schema (objects, enums, optionally interfaces/unions), a typed data graph with sharing/cycles/nulls/empty lists,"
+         " a document valid by construction (aliases, inline+named fragments, several operations, variables, arguments), an operation name in"
+         " {exact, empty, unknown} and a resolver strategy (Resolver / root resolver / reflection over reflect.StructOf types); response data is"
+         " compared key-for-key with the reference executor; an unselectable operation must run no resolver. Non-trivial = >=2 nesting levels"
+         " and one of {alias, fragment, list, null, empty list, several operations}; distinct = SHA-1 of the case JSON.",
+    level_text="Differential search against an independent executor over generated schemas/data/requests for the three resolver strategies."
+               " Exploration is the honest level: the input space is unbounded and the oracle is a reference model, not a proof.",
+    level_note="Trusted: the reference executor, the fixtures projecting one neutral graph into each strategy, SHA-1 case hashing.",
+    assumptions=EXEC_ASSUME,
+    design_ref="DESIGN.md section 5 C01",
+)
